@@ -681,14 +681,17 @@ def explore(tier, seed, rng, wd):
             lines.append(f"Q {ins['id']} {a} {b} {da} {ds}")
             meta.append(("Q", ins, (a, b, m, ma)))
         answers, errs = run_harness(exe, lines)
-        nrep = sum(e.count("runtime error") for e in errs)
+        # clang's full runtime also reports UNSIGNED wrap (not UB): a + b on arbitrary unsigned pairs (Q lines) wraps by design and
+        # C19 promises nothing there, so only genuine UB reports count in the non-exact builds
+        nrep = sum(1 for e in errs for l in e.split("\n") if "runtime error" in l and "unsigned integer overflow" not in l)
         stats["sanitizer_reports"] += nrep
         nasan = sum(e.count("AddressSanitizer") for e in errs)
         if (nrep and not exact) or nasan:
             # full UBSan runtimes report a location once per process and g++ never calls the hook: no per-input verdict
             # from these builds; every request of this harness is modelled UB-free (signed Q additions are executed only
             # when the model says they do not overflow; unsigned wrap is not reported by these builds)
-            first = next((l for e in errs for l in e.split("\n") if "runtime error" in l or "AddressSanitizer" in l), "")
+            first = next((l for e in errs for l in e.split("\n") if ("runtime error" in l and "unsigned integer overflow" not in l)
+                          or "AddressSanitizer" in l), "")
             violations.append({"what": f"sanitizer report in the {cfg} build while evaluating expressions with ZERO: {first[:200]}",
                                "class": "sanitizer-" + tag, "no_input": True, "broken": "UB-freedom (input identified only by the exact build)",
                                "rec": {"kind": "build", "config": cfg, "report": first[:400]}})
